@@ -215,7 +215,8 @@ def restartCore (st : State) : State :=
   let kgs : List (Name × Rels) := kgNames.map (fun k =>
     let rels : Rels := (s3.mem.filter (fun (m : Name × ShardMem) => hasPrefix k m.1)).filterMap (fun (m : Name × ShardMem) =>
       let ts := positive (m.2.batches ++ m.2.buffer)
-      if ts.isEmpty then none else some (relOf k m.1, ts))
+      -- a relation whose shard logged anything stays known (possibly empty) after the restart (mod.rs: logged_arity)
+      if ts.isEmpty && (m.2.batches ++ m.2.buffer).isEmpty then none else some (relOf k m.1, ts))
     (k, rels))
   -- default KG created (and the metadata file rewritten) only if missing
   if (lookup defaultKg kgs).isSome then { s3 with kgs := kgs }
@@ -268,10 +269,13 @@ def step (st : State) (t : Tid) : Res :=
       | none => fin st .nf
       | some rels => let (r', o) := insRel rels rel x; fin { st with kgs := put kg r' st.kgs } o
     -- delete
-    | .del kg _ _, .start =>
+    | .del kg rel _, .start =>
       if st.tomb.contains kg then fin st .nf
-      else if (lookup kg st.kgs).isNone then fin st .nf          -- existence check under the guard (mod.rs:636)
-      else go st .e2
+      else match lookup kg st.kgs with
+        | none => fin st .nf                                     -- existence check under the guard (mod.rs:643)
+        | some rels =>
+          if (lookup rel rels).isNone then fin st (.deld 0)      -- unknown relation: filtered out, nothing persisted (mod.rs:651-660)
+          else go st .e2
     | .del kg rel x, .e2 =>
       let s := shardName kg rel
       go { appendUpd (ensureShard st s) s (x, -1) with persistedForMissing := st.persistedForMissing || (lookup kg st.kgs).isNone } .e3
